@@ -77,11 +77,12 @@ impl<T: Types> RaftLogWriter<T> for RaftLog<T> {
 
     fn append<I>(&mut self, entries: I) -> Result<Segment, io::Error>
     where I: IntoIterator<Item = (T::LogId, T::LogPayload)> {
+        let mut segment = self.wal.last_segment();
         for (log_id, payload) in entries {
             let record = WALRecord::Append(log_id, payload);
-            self.append_and_apply(&record)?;
+            segment = self.append_and_apply(&record)?;
         }
-        Ok(self.wal.last_segment())
+        Ok(segment)
     }
 
     /// Truncate at `index`, keep the record before `index`.
@@ -495,17 +496,20 @@ impl<T: Types> RaftLog<T> {
         rec: &WALRecord<T>,
     ) -> Result<Segment, io::Error> {
         WAL::append(&mut self.wal, rec)?;
+        let segment = self.wal.last_segment();
         StateMachine::apply(
             &mut self.state_machine,
             rec,
             self.wal.open.chunk.chunk_id(),
-            self.wal.last_segment(),
+            segment,
         )?;
 
+        // Closing a full chunk starts a new chunk whose first record is a
+        // state snapshot; the segment of `rec` must be taken before that.
         self.wal
             .try_close_full_chunk(|| self.state_machine.log_state.clone())?;
 
-        Ok(self.wal.last_segment())
+        Ok(segment)
     }
 
     /// Verification accessor: the resident payload-cache entries as
